@@ -15,6 +15,7 @@ from . import cfront, smt
 from .cexec import Exec, NotSupported, Contract
 
 VERIF = os.path.dirname(os.path.dirname(os.path.abspath(__file__)))
+OUT = os.environ.get('VERIF_OUT', VERIF)      # canaries redirect evidence/replays to a scratch directory
 
 
 class Report:
@@ -164,7 +165,7 @@ def finish(rep, level='proof', technique='', trusted_base=(), checker_cmd='', ex
     nobs = len(rep.results)
     refuted = [(o, i) for o, v, i in rep.results if v == 'refuted']
     undecided = [o for o, v, i in rep.results if v in ('undecided', 'error')]
-    os.makedirs(os.path.join(VERIF, 'replays'), exist_ok=True)
+    os.makedirs(os.path.join(OUT, 'replays'), exist_ok=True)
     vio_lines = []
     seen_scripts = {}
     for k, (o, info) in enumerate(refuted):
@@ -194,7 +195,7 @@ def finish(rep, level='proof', technique='', trusted_base=(), checker_cmd='', ex
                 f.write("\n# replay on the real build: rc=%s (counter-model did not reproduce)\n# %s\n"
                         % (rc, out.strip().replace('\n', '\n# ')[-1500:]))
         else:
-            rp = os.path.join(VERIF, 'replays', '%s-%d.txt' % (rep.pid, k))
+            rp = os.path.join(OUT, 'replays', '%s-%d.txt' % (rep.pid, k))
             with open(rp, 'w') as f:
                 f.write(header + "\n(no concretiser maps this obligation's model to an API-level input)\n")
         vio_lines.append("VIOLATION property=%s replay=%s obligation=%s no-failing-input-found"
@@ -239,8 +240,8 @@ def finish(rep, level='proof', technique='', trusted_base=(), checker_cmd='', ex
     if explanation:
         ev['coverage']['explanation'] = explanation
     ev['coverage'].update(rep.extra)
-    os.makedirs(os.path.join(VERIF, 'evidence'), exist_ok=True)
-    json.dump(ev, open(os.path.join(VERIF, 'evidence', rep.pid + '.json'), 'w'), indent=1)
+    os.makedirs(os.path.join(OUT, 'evidence'), exist_ok=True)
+    json.dump(ev, open(os.path.join(OUT, 'evidence', rep.pid + '.json'), 'w'), indent=1)
     print("%s tier=%s obligations=%d discharged=%d refuted=%d undecided=%d covers=%d/%d errors=%d wall=%.1fs"
           % (rep.pid, rep.tier, nobs, cnt['discharged'], cnt['refuted'], cnt['undecided'] + cnt['error'],
              rep.covers['sat'], rep.covers['checked'], len(rep.errors), time.time() - rep.t0))
@@ -259,3 +260,52 @@ def _backends(rep):
         b = i.get('backend', '?')
         d[b] = d.get(b, 0) + 1
     return d
+
+
+BASE_TRUSTED = [
+    "T-CLANG: clang-14 AST/types of the real translation unit equal gcc's view (record layouts cross-checked with gcc on every run)",
+    "T-SMT: z3 5.1 / cvc5 1.0.3 soundness",
+    "T-GEN: the C verification-condition generator vf/cexec.py (two's-complement wrap under -fno-strict-overflow, "
+    "GCC shift semantics, field-heap + byte-heap memory model under type safety and A-SEP; partial correctness: "
+    "termination is not verified)",
+    "T-API: assumed contracts of CPython C-API / libc functions (contracts/c/base.py), each listed under assumptions",
+    "A-PYINT: Python ints abstracted by (value saturated to 80 bits, value mod 2^64) -- exact for these functions",
+    "A-ALLOC: object allocation does not fail; A-REFCNT: reference counts not modelled",
+]
+
+
+def run_c_property(pid, tier, seed, R, funcs, lemmas=(), concretise=None, trusted=(), technique='',
+                   layout_types=('CTypeDescrObject', 'CFieldObject', 'PyObject', 'PyTypeObject', 'CDataObject'),
+                   extra=None, more=None, level='proof', explanation=None, quick_budget=60, thorough_budget=600, tu=None):
+    rep = Report(pid, tier, seed)
+    tu = tu or cfront.load_tu()
+    try:
+        keys = [tu.parse_type(t).name for t in layout_types]
+        rep.extra['record_layout_asserts_checked_with_gcc'] = cfront.check_layouts(tu, keys)
+    except cfront.FrontEndError as e:
+        rep.errors.append(str(e))
+    budget = quick_budget if tier == 'quick' else thorough_budget
+    gens = gen_c_obligations(tu, R, funcs, rep)
+    obs, covers = [], []
+    used_models = set()
+    for nm, o, c, ex in gens:
+        obs += o
+        covers += c
+    lem = list(lemmas() if callable(lemmas) else lemmas)
+    rep.lemmas = [o.name for o in lem]
+    obs += lem
+    if more:
+        try:
+            o2, c2 = more(rep, tu)
+            obs += o2
+            covers += c2
+        except (NotSupported, cfront.FrontEndError) as e:
+            rep.errors.append("additional obligations: %s" % e)
+    apply_known(rep, obs)
+    run_obligations(rep, obs, budget, covers)
+    rep.assumptions = list(BASE_TRUSTED) + list(trusted) + \
+        ["assumed contract: %s -- %s" % (k, v) for k, v in sorted(R.assumed.items())]
+    if extra:
+        extra(rep, tu)
+    return finish(rep, level=level, trusted_base=list(BASE_TRUSTED) + list(trusted), concretise=concretise,
+                  technique=technique, explanation=explanation)
